@@ -96,6 +96,17 @@ func c06Gen(rng *verifsim.RNG, idx int, tier string) *Plan {
 				at = bt / (100 * nsMs) * (100 * nsMs)
 			}
 			a := rsAction(at, src)
+			if p.Class == "mixed-unicast" && rng.Bool(0.05) {
+				// more solicitations from hosts than the request queue holds, all
+				// in the socket at once, and one from :: at the very end
+				a = rsAction(at, hostAddr(rng.Intn(4)))
+				a.N = rng.Range(18, 40)
+				tail := rsAction(at, "::")
+				a.Then = &tail
+				p.Actions = append(p.Actions, a)
+				bt += int64(rng.Dur(0, 700*time.Millisecond))
+				continue
+			}
 			if rng.Bool(0.15) {
 				// a second solicitation sitting in the socket right behind this
 				// one (the listener hands both over before the scheduler runs):
